@@ -45,6 +45,10 @@ def task_wf(st):
                                                             tstate(st, t) == S_FINISHED),
                                                patterns=[st.f('_exception', t)]), {'_state', '_exception'}),
         ('state-constants', And(state_consts_facts()), {'_state'}),
+        # A-EXC: what a finished task holds as its exception is an Exception instance (not a bare BaseException)
+        ('E3-exception-objects', L.FA([t], Or(st.f('_exception', t) == NONE,
+                                              And(isa['Exception'](st.f('_exception', t)), st.alive(st.f('_exception', t)))),
+                                      patterns=[st.f('_exception', t)]), {'_exception', '$alive'}),
     ]
 
 
